@@ -61,6 +61,18 @@ func nameHashRules(r *engine.Report, p *engine.Program) {
 		r.Check("R6-name-hashes", "AddNameHash: nameHashes[hash(name)] = that name; single writer", add.Pos(), ok && len(writes) == 1 && writes[0] == engine.FuncName(add),
 			"the only store into nameHashes is in AddNameHash, keyed by Sum64 of the hasher fed with []byte(name), with value name", fmt.Sprintf("%s (writers: %v)", why, writes))
 	}
+	// (a') registrations are permanent: nothing deletes from the table (a node that leaves and
+	// re-joins is not registered again by handleRoutingUpdate, which only registers unknown origins)
+	{
+		var dels []string
+		for _, a := range p.FieldAccesses(tbl) {
+			if a.Kind == engine.AccMapDelete && !engine.IsMock(a.Fn) {
+				dels = append(dels, engine.FuncName(a.Fn)+" at "+p.Pos(a.Instr.Pos()))
+			}
+		}
+		r.Check("R6-name-hashes", "nameHashes: no deletions", token.NoPos, len(dels) == 0,
+			"no function removes an entry of nameHashes", fmt.Sprintf("entries are deleted in %v: a node whose origin record is already known is never registered again, so packets from or to it can no longer be decoded here", dels))
+	}
 	// (b) unknown hash fails the decode
 	for _, ci := range callsTo(dec, "(*netceptor.Netceptor).GetNameFromHash") {
 		okp, why := errorPropagates(dec, ci.(*ssa.Call))
